@@ -11,6 +11,9 @@ Abstractions (tied by the `cond` correspondence stream only):
   dimensions are integer numbers of scaled points (only exactly representable literals are generated);
 * `\ifx` operands (type `XTok` in the code): the code *expands* each operand and compares the
   results, so a macro is its body text and a character is itself;
+* operands may carry `-` signs and may be `\newcount`/`\newdimen` registers or integer multiples of
+  them (`-\reg`, `2\reg`); `valS` mirrors how `readInteger`/`readDimen` accumulate the sign and multiply;
+  registers are assigned in the preamble only (their scope is not C03's subject);
 * counters, `\newif` switches and `\gdef` are global in the code: `{`/`}` do not touch them.
 -/
 namespace PlasVerif.Model.Tests
@@ -21,6 +24,16 @@ inductive Rel where | lt | gt | eq | bad
 
 inductive Operand where
   | lit (n : Int) | cnt (c : Nat) | mac (n : Int)
+  | reg (r : Nat)               -- a `\newcount` register: an internal integer (the `ParameterCommand` branch of `readInteger`)
+  | neg (o : Operand)           -- a `-` in front of the operand (`readOptionalSigns`: `sign = -sign`)
+  deriving DecidableEq, Repr
+
+/-- operands of `\ifdim` (values in sp): a literal, a `\newdimen` register, an integer multiple of one, a `-` in front -/
+inductive DOperand where
+  | lit (sp : Int)
+  | reg (d : Nat)
+  | coef (k : Nat) (d : Nat)
+  | neg (o : DOperand)
   deriving DecidableEq, Repr
 
 inductive XTok where
@@ -31,7 +44,7 @@ inductive XTok where
 inductive Test where
   | tru | fls
   | num (a : Operand) (r : Rel) (b : Operand)
-  | dim (a : Int) (r : Rel) (b : Int)
+  | dim (a : DOperand) (r : Rel) (b : DOperand)
   | odd (a : Operand)
   | case_ (a : Operand)
   | ifx (a b : XTok)
@@ -52,11 +65,30 @@ structure St where
   cnt : Nat → Int
   sw : Nat → Option Bool     -- `none`: the switch has not been created
   defd : Nat → Bool
+  reg : Nat → Int            -- `\newcount` registers (assigned in the preamble only)
+  dreg : Nat → Int           -- `\newdimen` registers, in sp (assigned in the preamble only)
 
-def Operand.val (s : St) : Operand → Int
-  | .lit n => n
-  | .cnt c => s.cnt c
-  | .mac n => n
+/-- `readInteger`: `sign = self.readOptionalSigns()` is accumulated first, then
+    `number(sign * number(t))` for an internal integer, `number(sign * int(digits))` for a
+    constant.  (`digits\reg` as a product is an extension of the code that TeX's ⟨number⟩ does not have; not modelled.) -/
+def Operand.valS (s : St) : Int → Operand → Int
+  | sign, .neg o => Operand.valS s (-sign) o
+  | sign, .lit n => sign * n
+  | sign, .cnt c => sign * s.cnt c
+  | sign, .mac n => sign * n
+  | sign, .reg r => sign * s.reg r
+
+def Operand.val (s : St) (o : Operand) : Int := o.valS s 1
+
+/-- `readDimen`: `sign = self.readOptionalSigns()`, then `dimen(sign * dimen(t))` for a register,
+    else `dimen(sign * readDecimal() * readUnitOfMeasure())` where the unit may be a register. -/
+def DOperand.valS (s : St) : Int → DOperand → Int
+  | sign, .neg o => DOperand.valS s (-sign) o
+  | sign, .lit n => sign * n
+  | sign, .reg d => sign * s.dreg d
+  | sign, .coef k d => (sign * k) * s.dreg d
+
+def DOperand.val (s : St) (o : DOperand) : Int := o.valS s 1
 
 /-- the `if relation == '<' … elif '>' … elif '=' … raise ValueError` chain -/
 def Rel.cmp : Rel → Int → Int → Except Err Which
@@ -75,7 +107,7 @@ def ev : Test → St → Except Err Which
   | .tru, _ => .ok (.bool true)
   | .fls, _ => .ok (.bool false)
   | .num a r b, s => r.cmp (a.val s) (b.val s)
-  | .dim a r b, _ => r.cmp a b
+  | .dim a r b, s => r.cmp (a.val s) (b.val s)
   | .odd a, s => .ok (.bool (a.val s % 2 != 0))         -- `bool(tex.readNumber() % 2)`, Python `%`
   | .case_ a, s => .ok (.case (a.val s))
   | .ifx a b, _ => .ok (.bool (a.expand == b.expand))
